@@ -3,12 +3,15 @@
   Model: Deepali/Model/Dispatch.lean (`torchSem` = trusted torch semantics, the rest = the dispatcher as written).
   `AlignedS/AlignedV`, `goodOp`, `OtherOK`, `CountShapeOK`, `WFS` are defined in Deepali/Proofs/Dispatch*.lean.
 
+  History: the defects behind the former C19_split_sections_refuted, C19_split_with_sizes_refuted,
+  C19_bool_mask_refuted, C19_ellipsis_refuted, C19_narrow_method_refuted, C19_flow_*_refuted and
+  C19_demote_flow_refuted were repaired in /repo (commits 31c6369, a040c96, e158d15, e37fd36); the model follows the
+  repaired code, these operation classes are now part of `goodOp` / `C19_demote`, and their old witnesses are kept as
+  positive instances (`C19_repaired_witnesses_aligned`, `C19_flow_batch_size_demoted`).
+
   OBLIGATIONS: C19_aligned_partial C19_aligned_refuted C19_demote C19_demote_image C19_demote_plain
-    C19_demote_flow_refuted C19_copy_pickle C19_copy_flow_refuted
-    C19_flip_refuted C19_roll_refuted C19_index_select_refuted C19_split_sections_refuted
-    C19_split_with_sizes_refuted C19_bool_mask_refuted C19_ellipsis_refuted C19_narrow_method_refuted
-    C19_permute_refuted C19_flow_index_select_refuted C19_flow_mean_refuted C19_flow_narrow_refuted
-    C19_flow_repeat_refuted C19_flow_expand_refuted C19_flow_cat_negdim_refuted
+    C19_flow_batch_size_demoted C19_repaired_witnesses_aligned C19_copy_pickle C19_copy_flow_refuted
+    C19_flip_refuted C19_roll_refuted C19_index_select_refuted C19_permute_refuted C19_narrow_negdim_refuted
     C19_from_images_axes_refuted C19_append_axes_refuted
 -/
 import Deepali.Proofs.DispatchCopy
@@ -26,18 +29,18 @@ def C19_aligned_Statement : Prop :=
     OtherOK a0 other → AlignedV a0 v → AlignedV a0 (runProg other prog v)
 
 /-- Proved part: programs of ANY length built from the operation classes of `goodOp` —
-    elementwise / casts / clone / detach / in-place elementwise; copy / deepcopy / pickle; `b[int]`, `b[slice]`,
-    `b[list | index tensor]`, index tuples without ellipsis and boolean mask; iteration and picking a tuple member;
-    `cat` along dim 0 (dim omitted, positional 0, keyword 0) with itself or another aligned batch; `split(int)` and
-    `tensor_split(indices)` along dim 0; `chunk`, `unbind`; and, along non-batch dims given as positive literals,
-    `flip`, `roll`, `narrow` (function), `select`, `index_select`, reductions; `interpolate`; pooling —
+    elementwise / casts / clone / detach / in-place elementwise; copy / deepcopy / pickle; every single index form
+    `b[int]`, `b[slice]`, `b[list | index tensor]`, `b[bool mask]`, `b[...]`, and index tuples without ellipsis;
+    iteration and picking a tuple member; `cat` along dim 0 (dim omitted, positional 0, keyword 0) with itself or another
+    aligned batch; `split(int)`, `split([sections])`, `split_with_sizes`, `tensor_split(indices)` along dim 0; `chunk`,
+    `unbind`; method `narrow` (non-negative dim literal and start); and, along non-batch dims given as positive
+    literals, `flip`, `roll`, `narrow` (function), `select`, `index_select`, reductions; `interpolate`; pooling —
     keep every result aligned, for Image, ImageBatch, FlowField and FlowFields alike, starting from any aligned value
     (an exception yields nothing, I-1; plain results claim nothing).
-    Missing (see the `_refuted` theorems): flip/roll/index_select along dim 0, split(sections), split_with_sizes,
-    boolean masks, `batch[...]`, method `narrow`, dim-0 transposition, every N-changing operation on FlowFields,
-    `copy` of flow fields, `from_images` / `append` axes. Covered by correspondence + oracle only (neither proved nor
-    refuted in general): negative dim literals, stack, tensor_split(int), expand/repeat/reshape/squeeze/unsqueeze,
-    permute/transpose of other dims, padding, full reductions, index tuples with an ellipsis, collate. -/
+    Missing (see the `_refuted` theorems): flip/roll/index_select along dim 0, dim-0 transposition, method `narrow`
+    with a negative dim, `copy` of flow fields, `from_images` / `append` axes. Covered by `C19_demote` (count and
+    shapes) + correspondence + oracle only: negative dim literals, stack, tensor_split(int), expand/repeat/reshape/
+    squeeze/unsqueeze, dim-0 reductions, permute/transpose of other dims, padding, index tuples with an ellipsis, collate. -/
 theorem C19_aligned_partial (a0 : Nat) (other : Option SVal) (prog : List TOp) (v : Val)
     (hother : OtherOK a0 other) (hgood : ∀ op ∈ prog, goodOp op = true) (hv : AlignedV a0 v) :
     AlignedV a0 (runProg other prog v) :=
@@ -53,7 +56,8 @@ example : AlignedV 1 (.one (mkInput true 3 2 [4, 5] 0 1)) ∧ OtherOK 1 (some (m
 
 example :
     let prog : List TOp := [.cat [.cur, .other] .dflt, .getitem (.single (.slice (some 1) none none)),
-      .getitem (.single (.list [3, 0, 1])), .ew, .flip [3], .pool 2 1 1, .getitem (.single (.int 0))]
+      .getitem (.single (.list [3, 0, 1])), .ew, .flip [3], .pool 2 1 1, .narrowM 0 0 3,
+      .getitem (.single (.mask [true, true, false])), .splitL [1, 1] .dflt, .pick 0, .getitem (.single (.int 0))]
     (∀ op ∈ prog, goodOp op = true) ∧
       runProg (some (mkInput false 2 2 [4, 5] 10 0)) prog (.one (mkInput false 3 2 [4, 5] 0 0)) =
         .one (.image false ⟨[2, 4, 5], [.item 11, .item 11]⟩ ⟨11, [4, 5], []⟩ 0) := by
@@ -68,25 +72,25 @@ theorem C19_aligned_refuted : ¬ C19_aligned_Statement := by
 
 /-! ### demotion: mismatching results are plain tensors -/
 
-/-- `ImageBatch.__torch_function__`, any operation of the vocabulary, no flow field among the arguments: every
-    result that is typed has exactly one grid per entry and grid shapes equal to the spatial shape — a result whose
-    batch size or spatial shape does not match is a plain tensor (or the call raises). -/
-theorem C19_demote (op : TOp) (t : Raw) (gs : List GridTag) (a : Nat) (other : Option SVal)
-    (hnf : ∀ o, other = some o → o.isFlow = false) :
-    CountShapeOKV (batchTorchFunction op (.batch false t gs a) other) :=
-  countShapeOKV_batchTF op t gs a other hnf
+/-- `ImageBatch.__torch_function__` and `FlowFields.__torch_function__`, ANY operation of the vocabulary, any
+    arguments: every result that is typed has exactly one grid per entry and grid shapes equal to the spatial shape —
+    a result whose batch size or spatial shape does not match is a plain tensor (or the call raises). (For FlowFields
+    this holds since commit e158d15.) -/
+theorem C19_demote (op : TOp) (cur : SVal) (other : Option SVal) :
+    CountShapeOKV (batchTorchFunction op cur other) :=
+  countShapeOKV_batchTF op cur other
 
 /-- same for `Image.__torch_function__` and `FlowField.__torch_function__` -/
 theorem C19_demote_image (op : TOp) (cur : SVal) (other : Option SVal) :
     CountShapeOKV (imageTorchFunction op cur other) :=
   countShapeOKV_imageTF op cur other
 
-/-- the demotion itself: batch size or spatial shape differs from the inherited grids ⇒ plain tensor; for
-    FlowFields only the spatial shape is tested. -/
+/-- the demotion itself: batch size or spatial shape differs from the inherited grids ⇒ plain tensor. -/
 theorem C19_demote_plain (data : Raw) (g0 : GridTag) (gs : List GridTag) (ax : Option Nat) :
     ((data.shape.headD 0 ≠ (g0 :: gs).length ∨ data.shape.drop 2 ≠ g0.shape) →
         ibResult data (some (g0 :: gs)) = .one (.plain data)) ∧
-      (data.shape.drop 2 ≠ g0.shape → ffResult data (some (g0 :: gs)) ax = .one (.plain data)) ∧
+      ((data.shape.headD 0 ≠ (g0 :: gs).length ∨ data.shape.drop 2 ≠ g0.shape) →
+        ffResult data (some (g0 :: gs)) ax = .one (.plain data)) ∧
       (data.shape.drop 1 ≠ g0.shape → imResult data (some g0) = .one (.plain data)) := by
   have hib : (data.shape.headD 0 ≠ (g0 :: gs).length ∨ data.shape.drop 2 ≠ g0.shape) →
       ibResult data (some (g0 :: gs)) = .one (.plain data) := by
@@ -102,11 +106,15 @@ theorem C19_demote_plain (data : Raw) (g0 : GridTag) (gs : List GridTag) (ax : O
   · intro h
     unfold ffResult
     cases ax with
-    | none => exact hib (Or.inr h)
+    | none => exact hib h
     | some a =>
       simp only []
-      rw [if_neg (fun hc => h hc.2.2)]
-      exact hib (Or.inr h)
+      rw [if_neg]
+      · exact hib h
+      · intro hc
+        rcases h with h | h
+        · exact h hc.2.1
+        · exact h hc.2.2.2
   · intro h
     unfold imResult
     simp only []
@@ -116,15 +124,21 @@ theorem C19_demote_plain (data : Raw) (g0 : GridTag) (gs : List GridTag) (ax : O
 example : step none (.narrowF 0 1 2) (.one (mkInput false 3 2 [4, 5] 0 0)) =
     .one (.plain ⟨[2, 2, 4, 5], [.item 1, .item 2]⟩) := by decide
 
-/-- `FlowFields._torch_function_result` has no batch-size test: `C19_demote` fails for flow-field batches
-    (witness: `index_select(0, [2, 0])` on 3 items returns FlowFields with 2 entries and 3 grids). -/
-theorem C19_demote_flow_refuted :
-    ¬ (∀ (op : TOp) (t : Raw) (gs : List GridTag) (a : Nat),
-        CountShapeOKV (batchTorchFunction op (.batch true t gs a) none)) := by
-  intro h
-  have := h (.indexSelect 0 [2, 0]) ⟨[3, 2, 2, 2], [.item 0, .item 1, .item 2]⟩
-    [⟨0, [2, 2], []⟩, ⟨1, [2, 2], []⟩, ⟨2, [2, 2], []⟩] 1
-  revert this
+/-- the former witnesses of the missing batch-size test in `FlowFields._torch_function_result` (repaired by e158d15):
+    index_select(0,[2,0]), mean(0,keepdim), torch.narrow(x,0,1,2), repeat(2,1,1,1), expand(3,-1,-1,-1), cat(dim=-4)
+    on flow-field batches now return plain tensors. -/
+theorem C19_flow_batch_size_demoted :
+    step none (.indexSelect 0 [2, 0]) (.one (mkInput true 3 2 [2, 2] 0 1)) =
+        .one (.plain ⟨[2, 2, 2, 2], [.item 2, .item 0]⟩) ∧
+      step none (.reduce false [0] true) (.one (mkInput true 3 2 [2, 2] 0 1)) = .one (.plain ⟨[1, 2, 2, 2], [.mixed]⟩) ∧
+      step none (.narrowF 0 1 2) (.one (mkInput true 3 2 [2, 2] 0 1)) =
+        .one (.plain ⟨[2, 2, 2, 2], [.item 1, .item 2]⟩) ∧
+      step none (.repeat_ [2, 1, 1, 1]) (.one (mkInput true 2 2 [2, 2] 0 1)) =
+        .one (.plain ⟨[4, 2, 2, 2], [.item 0, .item 1, .item 0, .item 1]⟩) ∧
+      step none (.expand [3, -1, -1, -1]) (.one (mkInput true 1 2 [2, 2] 0 1)) =
+        .one (.plain ⟨[3, 2, 2, 2], [.item 0, .item 0, .item 0]⟩) ∧
+      step none (.cat [.cur, .cur] (.kw (-4))) (.one (mkInput true 2 2 [2, 2] 0 1)) =
+        .one (.plain ⟨[4, 2, 2, 2], [.item 0, .item 1, .item 0, .item 1]⟩) := by
   decide
 
 /-! ### copy / deepcopy / pickle -/
@@ -165,82 +179,33 @@ theorem C19_index_select_refuted : ¬ (∀ v : Val, AlignedV 0 v → AlignedV 0 
   have := h (.one (mkInput false 2 1 [2, 2] 0 0)) (by decide)
   revert this; decide
 
-/-- F-19c `split([1, 2])`: `start` is never advanced, the second piece gets the grids of items 0, 1 -/
-theorem C19_split_sections_refuted : ¬ (∀ v : Val, AlignedV 0 v → AlignedV 0 (step none (.splitL [1, 2] .dflt) v)) := by
-  intro h
-  have := h (.one (mkInput false 3 1 [2, 2] 0 0)) (by decide)
-  revert this; decide
-
-/-- F-19c same for `split_with_sizes` -/
-theorem C19_split_with_sizes_refuted :
-    ¬ (∀ v : Val, AlignedV 0 v → AlignedV 0 (step none (.splitWS [1, 2] .dflt) v)) := by
-  intro h
-  have := h (.one (mkInput false 3 1 [2, 2] 0 0)) (by decide)
-  revert this; decide
-
-/-- F-19d boolean-mask index: the mask VALUES are used as grid indices (3 grids for 2 entries) -/
-theorem C19_bool_mask_refuted :
-    ¬ (∀ v : Val, AlignedV 0 v → AlignedV 0 (step none (.getitem (.single (.mask [true, false, true]))) v)) := by
-  intro h
-  have := h (.one (mkInput false 3 1 [2, 2] 0 0)) (by decide)
-  revert this; decide
-
-/-- F-04b `batch[...]` gives every item the grid of item 0 -/
-theorem C19_ellipsis_refuted : ¬ (∀ v : Val, AlignedV 0 v → AlignedV 0 (step none (.getitem (.single .ell)) v)) := by
-  intro h
-  have := h (.one (mkInput false 2 1 [2, 2] 0 0)) (by decide)
-  revert this; decide
-
-/-- F-04b method `narrow` gives every item the grid of item 0 -/
-theorem C19_narrow_method_refuted : ¬ (∀ v : Val, AlignedV 0 v → AlignedV 0 (step none (.narrowM 0 1 1) v)) := by
-  intro h
-  have := h (.one (mkInput false 2 1 [2, 2] 0 0)) (by decide)
-  revert this; decide
-
 /-- exchanging batch and channel dimension when N = C: entries mix all items but stay typed -/
 theorem C19_permute_refuted : ¬ (∀ v : Val, AlignedV 0 v → AlignedV 0 (step none (.transpose 0 1) v)) := by
   intro h
   have := h (.one (mkInput false 2 2 [2, 2] 0 0)) (by decide)
   revert this; decide
 
-/-- F-19b FlowFields: `index_select(0, [2, 0])` → 2 entries, 3 grids -/
-theorem C19_flow_index_select_refuted :
-    ¬ (∀ v : Val, AlignedV 1 v → AlignedV 1 (step none (.indexSelect 0 [2, 0]) v)) := by
+/-- method `narrow` with a NEGATIVE dim: `dim == 0` / `dim > 1` are tested on the argument as given, so
+    `batch.narrow(-4, 1, 1)` narrows the data along the batch dimension but passes all grids on (2 grids, 1 entry) -/
+theorem C19_narrow_negdim_refuted : ¬ (∀ v : Val, AlignedV 0 v → AlignedV 0 (step none (.narrowM (-4) 1 1) v)) := by
   intro h
-  have := h (.one (mkInput true 3 2 [2, 2] 0 1)) (by decide)
+  have := h (.one (mkInput false 2 1 [2, 2] 0 0)) (by decide)
   revert this; decide
 
-/-- F-19b FlowFields: `mean(0, keepdim=True)` → 1 mixed entry, 3 grids -/
-theorem C19_flow_mean_refuted :
-    ¬ (∀ v : Val, AlignedV 1 v → AlignedV 1 (step none (.reduce false [0] true) v)) := by
-  intro h
-  have := h (.one (mkInput true 3 2 [2, 2] 0 1)) (by decide)
-  revert this; decide
-
-/-- F-19b FlowFields: `torch.narrow(x, 0, 1, 2)` → 2 entries, 3 grids -/
-theorem C19_flow_narrow_refuted : ¬ (∀ v : Val, AlignedV 1 v → AlignedV 1 (step none (.narrowF 0 1 2) v)) := by
-  intro h
-  have := h (.one (mkInput true 3 2 [2, 2] 0 1)) (by decide)
-  revert this; decide
-
-/-- F-19b FlowFields: `repeat(2, 1, 1, 1)` → 4 entries, 2 grids -/
-theorem C19_flow_repeat_refuted : ¬ (∀ v : Val, AlignedV 1 v → AlignedV 1 (step none (.repeat_ [2, 1, 1, 1]) v)) := by
-  intro h
-  have := h (.one (mkInput true 2 2 [2, 2] 0 1)) (by decide)
-  revert this; decide
-
-/-- F-19b FlowFields: `expand(3, -1, -1, -1)` of one item → 3 entries, 1 grid -/
-theorem C19_flow_expand_refuted : ¬ (∀ v : Val, AlignedV 1 v → AlignedV 1 (step none (.expand [3, -1, -1, -1]) v)) := by
-  intro h
-  have := h (.one (mkInput true 1 2 [2, 2] 0 1)) (by decide)
-  revert this; decide
-
-/-- F-19b + `kwargs.get("dim", 0)`: `cat([x, x], dim=-4)` is not recognised as dim 0 → 4 entries, 2 grids -/
-theorem C19_flow_cat_negdim_refuted :
-    ¬ (∀ v : Val, AlignedV 1 v → AlignedV 1 (step none (.cat [.cur, .cur] (.kw (-4))) v)) := by
-  intro h
-  have := h (.one (mkInput true 2 2 [2, 2] 0 1)) (by decide)
-  revert this; decide
+/-- the former witnesses of the defects repaired in /repo (31c6369 narrow / `batch[...]`, a040c96 split sections,
+    e37fd36 boolean mask) are aligned now — concrete instances of `C19_aligned_partial` -/
+theorem C19_repaired_witnesses_aligned :
+    AlignedV 0 (step none (.splitL [1, 2] .dflt) (.one (mkInput false 3 1 [2, 2] 0 0))) ∧
+      AlignedV 0 (step none (.splitWS [1, 2] .dflt) (.one (mkInput false 3 1 [2, 2] 0 0))) ∧
+      AlignedV 0 (step none (.getitem (.single (.mask [true, false, true]))) (.one (mkInput false 3 1 [2, 2] 0 0))) ∧
+      AlignedV 0 (step none (.getitem (.single .ell)) (.one (mkInput false 2 1 [2, 2] 0 0))) ∧
+      AlignedV 0 (step none (.narrowM 0 1 1) (.one (mkInput false 2 1 [2, 2] 0 0))) ∧
+      step none (.narrowM 0 1 1) (.one (mkInput false 2 1 [2, 2] 0 0)) =
+        .one (.batch false ⟨[1, 1, 2, 2], [.item 1]⟩ [⟨1, [2, 2], []⟩] 0) ∧
+      step none (.splitL [1, 2] .dflt) (.one (mkInput false 3 1 [2, 2] 0 0)) =
+        .many [.batch false ⟨[1, 1, 2, 2], [.item 0]⟩ [⟨0, [2, 2], []⟩] 0,
+               .batch false ⟨[2, 1, 2, 2], [.item 1, .item 2]⟩ [⟨1, [2, 2], []⟩, ⟨2, [2, 2], []⟩] 0] := by
+  decide
 
 /-- `FlowFields.from_images(list(batch))` drops the axes (default axes instead of the items' WORLD axes) -/
 theorem C19_from_images_axes_refuted :
